@@ -118,6 +118,16 @@ def rand_counts(rng, B, N, pattern):
     c = np.zeros((B, N, N))
     if pattern == "zero":
         return c
+    if pattern == "fewpairs":
+        # many patches, few linked pairs (what a survey-sized measurement stores), the corners of the index range included
+        pairs = {(N - 1, N - 1), (N - 1, 0), (0, N - 1), (N // 2, N - 1), (N - 1, N - 2)}
+        while len(pairs) < min(48, N * N):
+            pairs.add((rng.randrange(N), rng.randrange(N)))
+        for (i, j) in sorted(pairs):
+            for b in range(B):
+                if rng.random() < 0.8:
+                    c[b, i, j] = rng.randrange(1, 64) / 8.0
+        return c
     for i in range(N):
         for j in range(N):
             if pattern == "dense":
@@ -200,7 +210,8 @@ def hdf_case(ctx, spec, idx, out):
             members[k] = make_ncounts(rng, binning, B, N, spec["auto"], rng.choice([spec["pattern"], "sparse", "zero"]))
     path = os.path.join(ctx.workdir, "cf_%d.hdf5" % idx)
     case = ("hdf", idx)
-    replay = dict(spec=spec, counts={k: v.counts.counts.tolist() for k, v in members.items()})
+    replay = dict(spec=spec, counts={k: v.counts.counts.tolist() for k, v in members.items()} if N <= 8 else
+                  "regenerate from spec (dseed) with harness/props/c11.py:hdf_case")
     if spec["container"] == "ncounts":
         obj = members["dd"]
         cls = NormalisedCounts
@@ -293,6 +304,9 @@ def hdf_case(ctx, spec, idx, out):
         got = getattr(back, KINDS[GROUPS.index(g)], None) if cls is CorrFunc else back
         if st is None or got is None:
             continue
+        if N > 8:        # the dense literal would have B*N*N entries: these cases are compared on the objects above
+            ctx.bump("hdf_large_N_object_comparison_only")
+            continue
         pairs, rows = st
         out["sparse"].append((case, replay, "c11_case_sparse %s %s %s %s %s %s" % (
             fq.nat(B), fq.nat(N), q3(members[k].counts.counts),
@@ -318,6 +332,11 @@ def hdf_specs(ctx, n):
                 pattern="signed", dseed=12),
            dict(container="corrfunc", bins=2, patches=4, closed="left", auto=True, present=(True, False, False),
                 pattern="signed", dseed=13)]
+    # patch counts up to the hundreds (index arithmetic on patch pairs: N*N far beyond 16 bits)
+    bigs = [182, 257, 150, 200, 320, 181, 183, 400, 512, 129, 255, 256]
+    for i, N in enumerate(bigs[:ctx.n(4, 12)]):
+        out.append(dict(container="corrfunc" if i % 3 else "ncounts", bins=1 + i % 2, patches=N, closed="right", auto=bool(i % 2),
+                        present=subsets[i % 7] if i % 3 else (False, False, False), pattern="fewpairs", dseed=1000 + i))
     for i in range(n):
         container = "ncounts" if i % 9 == 8 else "corrfunc"
         out.append(dict(container=container, bins=rng.randrange(1, 6), patches=rng.randrange(1, 7),
